@@ -208,6 +208,93 @@ impl WinGen {
 	}
 }
 
+/// the WTEMA minimum of a chain type as the model's per-chain table has it (`minWtemaGraphWeight`
+/// over `Gen/Consts`): `(2 << (edge_bits - base)) * edge_bits` of the chain's smallest graph,
+/// `C32_GRAPH_WEIGHT` on Mainnet — computed here without `global.rs`
+fn spec_min_wtema(ct: ChainTypes) -> u64 {
+	let gw = |eb: u64, base: u64| (2u64 << (eb - base)) * eb;
+	match ct {
+		ChainTypes::Mainnet => consensus::C32_GRAPH_WEIGHT,
+		ChainTypes::Testnet => gw(consensus::SECOND_POW_EDGE_BITS as u64, consensus::BASE_EDGE_BITS as u64),
+		ChainTypes::AutomatedTesting => gw(
+			global::AUTOMATED_TESTING_MIN_EDGE_BITS as u64,
+			global::AUTOMATED_TESTING_MIN_EDGE_BITS as u64,
+		),
+		ChainTypes::UserTesting => gw(
+			global::USER_TESTING_MIN_EDGE_BITS as u64,
+			global::USER_TESTING_MIN_EDGE_BITS as u64,
+		),
+	}
+}
+
+/// The clauses "never returns less than the minimum" and "changes by no more than its damping
+/// and clamp bounds", evaluated on the implementation's answer for one window (latest first).
+/// Returns the violated clause, if any.
+fn retarget_oracle(
+	ct: ChainTypes,
+	era_wtema: bool,
+	w: &[HeaderDifficultyInfo],
+	r: &HeaderDifficultyInfo,
+	stats: &mut Stats,
+	cn: &str,
+) -> Option<String> {
+	let d = r.difficulty.to_num();
+	if era_wtema {
+		let min = spec_min_wtema(ct);
+		if d < min {
+			return Some(format!("below the {} WTEMA minimum {}", cn, min));
+		}
+		if d < consensus::C32_GRAPH_WEIGHT {
+			stats.hit(&format!("nd_wtema_below_mainnet_min_{}", cn));
+		}
+		if w.len() >= 2 && w[0].timestamp >= w[1].timestamp {
+			let dt = w[0].timestamp - w[1].timestamp;
+			let h = consensus::WTEMA_HALF_LIFE as u128;
+			let last = w[0].difficulty.to_num() as u128;
+			let den = h - consensus::BLOCK_TIME_SEC as u128 + dt as u128;
+			if last * h <= u64::MAX as u128 && den <= u64::MAX as u128 {
+				// exact: max(minimum, max(1, last * H / (H - 60 + dt))), hence within
+				// [last * H / (H - 60 + dt), last * H / (H - 60)] above the minimum
+				let want = std::cmp::max(min as u128, std::cmp::max(1, last * h / den));
+				stats.hit("nd_wtema_exact_checked");
+				if d as u128 != want {
+					return Some(format!(
+						"WTEMA step is not max({} minimum {}, last*{}/({}+{})) = {}",
+						cn, min, h, h - 60, dt, want
+					));
+				}
+			}
+		}
+	} else {
+		let min = consensus::MIN_DMA_DIFFICULTY;
+		if d < min {
+			return Some(format!("below the DMA minimum {}", min));
+		}
+		if !w.is_empty() {
+			if let Some(data) = pc(|| global::difficulty_data_to_vector(w.to_vec())) {
+				let s: u128 = data.iter().skip(1).map(|x| x.difficulty.to_num() as u128).sum();
+				let x = s * consensus::BLOCK_TIME_SEC as u128;
+				if x <= u64::MAX as u128 {
+					// damp(.., 3) then clamp(.., 2) keep the adjusted span in [BTW/2, 2*BTW]
+					let lo = x / (consensus::BLOCK_TIME_WINDOW * consensus::CLAMP_FACTOR) as u128;
+					let hi = std::cmp::max(
+						min as u128,
+						x / (consensus::BLOCK_TIME_WINDOW / consensus::CLAMP_FACTOR) as u128,
+					);
+					stats.hit("nd_dma_bounds_checked");
+					if (d as u128) < lo || (d as u128) > hi {
+						return Some(format!(
+							"DMA result outside the clamp bounds [{}, {}] (window sum {})",
+							lo, hi, s
+						));
+					}
+				}
+			}
+		}
+	}
+	None
+}
+
 fn run_diff(out: &mut Out, rng: &mut Rng, thorough: bool) {
 	let mut stats = Stats(BTreeMap::new());
 	// damp / clamp / secondary_pow_ratio
@@ -258,12 +345,38 @@ fn run_diff(out: &mut Out, rng: &mut Rng, thorough: bool) {
 			_ => (pick(rng), pick(rng)),
 		};
 		let r = pc(|| consensus::damp(a, g, f));
+		if let Some(x) = r {
+			// no overflow: the damped value lies between actual and goal, at least (f-1)/f of goal
+			let sum = a as u128 + (f as u128).saturating_sub(1) * g as u128;
+			if f >= 1 && sum <= u64::MAX as u128 {
+				stats.hit("damp_bounds_checked");
+				let lo = (f as u128 - 1) * g as u128 / f as u128;
+				if (x as u128) < lo || x > a.max(g) || x < a.min(g) {
+					out.raw(&format!(
+						"#ORACLE-FAIL C04 damp({}, {}, {}) = {} outside [max({}, min(actual, goal)), max(actual, goal)]",
+						a, g, f, x, lo
+					));
+				}
+			}
+		}
 		out.line(
 			&format!("cons damp {} {} {}", a, g, f),
 			&r.map(|x| x.to_string()).unwrap_or("panic".into()),
 		);
 		let f2 = if i % 4 < 2 { consensus::CLAMP_FACTOR } else { f };
 		let r = pc(|| consensus::clamp(a, g, f2));
+		if let Some(x) = r {
+			if f2 >= 1 && (g as u128) * (f2 as u128) <= u64::MAX as u128 {
+				stats.hit("clamp_bounds_checked");
+				let (lo, hi) = (g / f2, (g / f2).max(g * f2));
+				if x < lo || x > hi {
+					out.raw(&format!(
+						"#ORACLE-FAIL C04 clamp({}, {}, {}) = {} outside [{}, {}]",
+						a, g, f2, x, lo, hi
+					));
+				}
+			}
+		}
 		out.line(
 			&format!("cons clamp {} {} {}", a, g, f2),
 			&r.map(|x| x.to_string()).unwrap_or("panic".into()),
@@ -283,6 +396,16 @@ fn run_diff(out: &mut Out, rng: &mut Rng, thorough: bool) {
 				global::min_wtema_graph_weight()
 			),
 		);
+		// the per-chain minimum itself
+		if global::min_wtema_graph_weight() != spec_min_wtema(*ct) {
+			out.raw(&format!(
+				"#ORACLE-FAIL C04 min_wtema_graph_weight() on chain {} is {} but the {} minimum is {}",
+				cn,
+				global::min_wtema_graph_weight(),
+				cn,
+				spec_min_wtema(*ct)
+			));
+		}
 		let hs = heights(*ct, rng, if thorough { 3000 } else { 400 });
 		for &h in &hs {
 			out.line(
@@ -409,12 +532,12 @@ fn run_diff(out: &mut Out, rng: &mut Rng, thorough: bool) {
 					let min = if era == "dma" {
 						consensus::MIN_DMA_DIFFICULTY
 					} else {
-						global::min_wtema_graph_weight()
+						spec_min_wtema(*ct)
 					};
-					if x.difficulty.to_num() < min {
+					if let Some(why) = retarget_oracle(*ct, era == "wtema", &w, x, &mut stats, cn) {
 						out.raw(&format!(
-							"#ORACLE-FAIL C04 next_difficulty below the minimum {}: chain={} height={} window={} result={}",
-							min, cn, h, ws, show_hdi(x)
+							"#ORACLE-FAIL C04 next_difficulty {}: chain={} height={} window={} result={}",
+							why, cn, h, ws, show_hdi(x)
 						));
 					}
 					if x.difficulty.to_num() == min {
@@ -464,6 +587,51 @@ fn run_diff(out: &mut Out, rng: &mut Rng, thorough: bool) {
 					);
 				}
 			}
+		}
+	}
+	// crafted: WTEMA steps at low difficulties on every chain type — results at and just above
+	// each chain's own minimum (on Testnet / the testing chains far below Mainnet's)
+	for (ct, cn) in CTS.iter() {
+		global::set_local_chain_type(*ct);
+		let h0 = match ct {
+			ChainTypes::Mainnet => 4 * consensus::HARD_FORK_INTERVAL,
+			ChainTypes::Testnet => consensus::TESTNET_FOURTH_HARD_FORK,
+			_ => 4 * consensus::TESTING_HARD_FORK_INTERVAL,
+		};
+		let min = spec_min_wtema(*ct);
+		for i in 0..(if thorough { 1500 } else { 300 }) {
+			let h = h0 + rng.below(100_000);
+			let last = match i % 5 {
+				0 => rng.range(1, min.max(2)),
+				1 => min + rng.below(50),
+				2 => rng.range(min, consensus::C32_GRAPH_WEIGHT + 10),
+				3 => rng.range(1, 2 * consensus::C32_GRAPH_WEIGHT),
+				_ => rng.next() >> rng.range(30, 63),
+			};
+			let dt = *rng.pick(&[0u64, 1, 30, 59, 60, 61, 120, 600, 20_000]) + rng.below(3);
+			let t0 = 1_600_000_000 + rng.below(1_000_000);
+			let mut w = vec![hdi(t0 + dt, last, 0, false), hdi(t0, rng.range(1, 100_000), 0, false)];
+			if rng.chance(1, 2) {
+				w.push(hdi(t0 - 60, 5, 0, false));
+			}
+			let ws = show_window(&w);
+			let r = pc(|| consensus::next_difficulty(h, w.clone()));
+			if let Some(x) = &r {
+				stats.hit(&format!("nd_wtema_crafted_{}", cn));
+				if x.difficulty.to_num() == min {
+					stats.hit(&format!("nd_wtema_crafted_at_min_{}", cn));
+				}
+				if let Some(why) = retarget_oracle(*ct, true, &w, x, &mut stats, cn) {
+					out.raw(&format!(
+						"#ORACLE-FAIL C04 next_difficulty {}: chain={} height={} window={} result={}",
+						why, cn, h, ws, show_hdi(x)
+					));
+				}
+			}
+			out.line(
+				&format!("cons nd {} {} {}", cn, h, ws),
+				&r.map(|x| show_hdi(&x)).unwrap_or("panic".into()),
+			);
 		}
 	}
 	// crafted: the `as u32` truncation of secondary_pow_scaling landing below MIN_AR_SCALE
@@ -1031,7 +1199,7 @@ impl KnownRun {
 		s
 	}
 
-	fn sync(&mut self, out: &mut Out, id: &str, c: &Chain, skip: bool, batch: &[BlockHeader]) -> String {
+	fn sync(&mut self, out: &mut Out, id: &str, c: &Chain, opts: Options, batch: &[BlockHeader]) -> String {
 		// the caller's sync head: usually header_head, sometimes an older known header (as while
 		// a peer's fork is being synced)
 		self.sync_calls += 1;
@@ -1041,7 +1209,6 @@ impl KnownRun {
 		} else {
 			c.header_head().unwrap()
 		};
-		let opts = if skip { Options::SKIP_POW } else { Options::NONE };
 		let toks: Vec<String> = batch.iter().map(|h| self.fhdr(h)).collect();
 		let r = pc(|| c.sync_block_headers(batch, sync_head.clone(), opts));
 		let class = match &r {
@@ -1054,7 +1221,7 @@ impl KnownRun {
 			&format!(
 				"cons node {} sync {} {} [{}]",
 				id,
-				if skip { 1 } else { 0 },
+				opts.bits(),
 				show_tip(&sync_head),
 				toks.join(",")
 			),
@@ -1064,8 +1231,7 @@ impl KnownRun {
 		class
 	}
 
-	fn pbh(&mut self, out: &mut Out, id: &str, c: &Chain, skip: bool, h: &BlockHeader) -> String {
-		let opts = if skip { Options::SKIP_POW } else { Options::NONE };
+	fn pbh(&mut self, out: &mut Out, id: &str, c: &Chain, opts: Options, h: &BlockHeader) -> String {
 		let r = pc(|| c.process_block_header(h, opts));
 		let class = match &r {
 			None => "panic".to_string(),
@@ -1073,7 +1239,7 @@ impl KnownRun {
 			Some(Err(e)) => chain_err_class(e),
 		};
 		out.line(
-			&format!("cons node {} pbh {} {}", id, if skip { 1 } else { 0 }, self.fhdr(h)),
+			&format!("cons node {} pbh {} {}", id, opts.bits(), self.fhdr(h)),
 			&class,
 		);
 		self.stats.hit(&format!("pbh_{}", class));
@@ -1081,9 +1247,23 @@ impl KnownRun {
 	}
 
 	/// `process_block` of `body` carrying header `h`; `bodyok`: the body belongs to this header
-	fn pb(&mut self, out: &mut Out, id: &str, c: &Chain, skip: bool, h: &BlockHeader, body: &Block) -> String {
-		let opts = if skip { Options::SKIP_POW } else { Options::NONE };
+	fn pb(&mut self, out: &mut Out, id: &str, c: &Chain, opts: Options, h: &BlockHeader, body: &Block) -> String {
 		let bodyok = digest(h) == digest(&body.header);
+		self.pb2(out, id, c, opts, h, body, bodyok)
+	}
+
+	/// `bodyok`: the body is valid for this header (roots, sizes, sums)
+	#[allow(clippy::too_many_arguments)]
+	fn pb2(
+		&mut self,
+		out: &mut Out,
+		id: &str,
+		c: &Chain,
+		opts: Options,
+		h: &BlockHeader,
+		body: &Block,
+		bodyok: bool,
+	) -> String {
 		let mut b = body.clone();
 		b.header = h.clone();
 		let r = pc(|| c.process_block(b, opts).map(|_| ()));
@@ -1105,7 +1285,7 @@ impl KnownRun {
 			&format!(
 				"cons node {} pb {} {} {}",
 				id,
-				if skip { 1 } else { 0 },
+				opts.bits(),
 				if bodyok { 1 } else { 0 },
 				self.fhdr(h)
 			),
@@ -1239,6 +1419,7 @@ fn run_known(out: &mut Out, rng: &mut Rng, thorough: bool) {
 	// honest main-chain blocks by height (index 0 = genesis) and honest fork siblings (headers)
 	let mut blocks: Vec<Block> = vec![genesis.clone()];
 	let mut alts: Vec<BlockHeader> = vec![];
+	let mut last_fake: Option<BlockHeader> = None;
 	let poison_at: Vec<u32> = if thorough { vec![2, 4, 7, 10, 13, 20, 30, 55] } else { vec![4, 9, 13] };
 	for n in 1..=n_blocks {
 		let gap = match rng.below(5) {
@@ -1298,7 +1479,7 @@ fn run_known(out: &mut Out, rng: &mut Rng, thorough: bool) {
 				}
 				batch.push(x.clone());
 				batch.push(m.clone());
-				let class = kr.sync(out, sid, &subject, false, &batch);
+				let class = kr.sync(out, sid, &subject, Options::NONE, &batch);
 				let after = (kr.state(out, sid, &subject), kr.stored(out, sid, &subject, &k.hash()));
 				kr.stats.hit("cfg_after-new");
 				if class.starts_with("ok") || class == "panic" {
@@ -1312,6 +1493,69 @@ fn run_known(out: &mut Out, rng: &mut Rng, thorough: bool) {
 				}
 			}
 		}
+		// the proof of work under every processing option the node uses (and their union): a
+		// header whose nonces are made up so that their hash reaches the difficulty but form no
+		// cycle, and headers with other edge bits, must be refused whatever the option says
+		let opt_sets = [
+			(Options::NONE, "NONE"),
+			(Options::SYNC, "SYNC"),
+			(Options::MINE, "MINE"),
+			(Options::SYNC | Options::MINE, "SYNC|MINE"),
+		];
+		{
+			let need = x.pow.total_difficulty.to_num() - blocks[top].header.pow.total_difficulty.to_num();
+			let eb = x.pow.proof.edge_bits;
+			let mut variants: Vec<(String, BlockHeader)> = vec![];
+			let mut tried = 0u64;
+			for _ in 0..4000 {
+				tried += 1;
+				let mut set = std::collections::BTreeSet::new();
+				while set.len() < global::proofsize() {
+					set.insert(rng.below(1u64 << eb));
+				}
+				let mut h = x.clone();
+				h.pow.proof.nonces = set.into_iter().collect();
+				if h.pow.to_difficulty(h.height).to_num() >= need
+					&& pc(|| pow::verify_size(&h).is_err()).unwrap_or(true)
+				{
+					variants.push(("fake-nonces".to_string(), h));
+					break;
+				}
+			}
+			kr.stats.hit(if variants.is_empty() { "fake_pow_not_found" } else { "fake_pow_found" });
+			kr.stats.0.entry("fake_pow_candidates_tried".to_string()).and_modify(|v| *v += tried).or_insert(tried);
+			for (kind, nb) in [("edge_bits-1", eb - 1), ("edge_bits+1", eb + 1), ("edge_bits=29", 29u8)] {
+				let mut h = x.clone();
+				h.pow.proof.edge_bits = nb;
+				// (the same nonces are now and then a cycle of the next graph size: a valid proof)
+				if pc(|| pow::verify_size(&h).is_err()).unwrap_or(true) {
+					variants.push((kind.to_string(), h));
+				}
+			}
+			for (kind, m) in variants.iter() {
+				if kind == "fake-nonces" {
+					last_fake = Some(m.clone());
+				}
+				for (o, oname) in opt_sets.iter() {
+					for via in ["pbh", "sync", "pb"] {
+						let before = kr.state(out, sid, &subject);
+						out.raw(&format!("# pow {} {} {}", kind, oname, via));
+						kr.stats.hit(&format!("pow_{}_{}_{}", kind, oname, via));
+						let class = match via {
+							"pbh" => kr.pbh(out, sid, &subject, *o, m),
+							"sync" => kr.sync(out, sid, &subject, *o, &[m.clone()]),
+							_ => kr.pb(out, sid, &subject, *o, m, &b),
+						};
+						let after = kr.state(out, sid, &subject);
+						if (class != "InvalidPow" && class != "LowEdgebits") || before != after
+							|| subject.get_block_header(&m.hash()).is_ok()
+						{
+							kr.fail(out, format!("header without a valid proof of work ({}) not refused as such under Options::{} via {}: {} needed_difficulty={} proof_difficulty={} hdr={} before={} after={}", kind, oname, via, class, need, m.pow.to_difficulty(m.height).to_num(), show_stored(m), before, after));
+						}
+					}
+				}
+			}
+		}
 		// a NEW header with a wrong prev_root and fresh PoW: the header MMR root is checked when the
 		// fork is re-applied (batch path) resp. before the header is applied (single-header path)
 		{
@@ -1320,9 +1564,9 @@ fn run_known(out: &mut Out, rng: &mut Rng, thorough: bool) {
 			if remine(&mut xr) {
 				let before = kr.state(out, sid, &subject);
 				out.raw("# new prev_root=random+pow");
-				let c1 = kr.sync(out, sid, &subject, false, &[xr.clone()]);
-				let c2 = kr.pbh(out, sid, &subject, false, &xr);
-				let c3 = kr.sync(out, sid, &subject, false, &[blocks[top].header.clone(), xr.clone()]);
+				let c1 = kr.sync(out, sid, &subject, Options::NONE, &[xr.clone()]);
+				let c2 = kr.pbh(out, sid, &subject, Options::NONE, &xr);
+				let c3 = kr.sync(out, sid, &subject, Options::NONE, &[blocks[top].header.clone(), xr.clone()]);
 				let after = kr.state(out, sid, &subject);
 				kr.stats.hit("new_bad_root");
 				if c1.starts_with("ok") || c2.starts_with("ok") || c3.starts_with("ok") || before != after
@@ -1336,21 +1580,27 @@ fn run_known(out: &mut Out, rng: &mut Rng, thorough: bool) {
 		let alt_first = rng.chance(1, 2);
 		if let (Some(a), true) = (&alt, alt_first) {
 			kr.roots.insert(a.prev_hash.to_vec(), a.prev_root);
-			kr.pbh(out, sid, &subject, false, a);
+			kr.pbh(out, sid, &subject, Options::NONE, a);
 			kr.state(out, sid, &subject);
 		}
-		if rng.chance(1, 2) {
-			kr.sync(out, sid, &subject, false, &[x.clone()]);
+		// the honest header and block arrive with NONE, SYNC, MINE in turn (positive control)
+		let (main_opts, main_oname) = opt_sets[(n % 3) as usize];
+		kr.stats.hit(&format!("honest_main_{}", main_oname));
+		let c = if rng.chance(1, 2) && main_opts != Options::MINE {
+			kr.sync(out, sid, &subject, main_opts, &[x.clone()])
 		} else {
-			kr.pbh(out, sid, &subject, false, &x);
-		}
+			kr.pbh(out, sid, &subject, main_opts, &x)
+		};
 		kr.state(out, sid, &subject);
+		if !c.starts_with("ok") || subject.get_block_header(&x.hash()).is_err() {
+			kr.fail(out, format!("properly mined header refused under Options::{}: {} {}", main_oname, c, show_stored(&x)));
+		}
 		if let (Some(a), false) = (&alt, alt_first) {
 			kr.roots.insert(a.prev_hash.to_vec(), a.prev_root);
 			if rng.chance(1, 2) {
-				kr.sync(out, sid, &subject, false, &[a.clone()]);
+				kr.sync(out, sid, &subject, Options::NONE, &[a.clone()]);
 			} else {
-				kr.pbh(out, sid, &subject, false, a);
+				kr.pbh(out, sid, &subject, Options::NONE, a);
 			}
 			kr.state(out, sid, &subject);
 		}
@@ -1381,7 +1631,7 @@ fn run_known(out: &mut Out, rng: &mut Rng, thorough: bool) {
 					out.raw(&format!("# known {} {} {}", cat, kind, cfg));
 					kr.stats.hit(&format!("cfg_{}", cfg));
 					let class = match cfg {
-						"alone" => kr.sync(out, sid, &subject, false, &[m.clone()]),
+						"alone" => kr.sync(out, sid, &subject, Options::NONE, &[m.clone()]),
 						"after-known" => {
 							// honest, known headers first: the victim's ancestors or the latest ones
 							let mut batch = vec![];
@@ -1399,10 +1649,10 @@ fn run_known(out: &mut Out, rng: &mut Rng, thorough: bool) {
 								batch.push(blocks[t].header.clone());
 							}
 							batch.push(m.clone());
-							kr.sync(out, sid, &subject, false, &batch)
+							kr.sync(out, sid, &subject, Options::NONE, &batch)
 						}
-						"pbh" => kr.pbh(out, sid, &subject, false, m),
-						_ => kr.pb(out, sid, &subject, false, m, &blocks[k.height as usize]),
+						"pbh" => kr.pbh(out, sid, &subject, Options::NONE, m),
+						_ => kr.pb(out, sid, &subject, Options::NONE, m, &blocks[k.height as usize]),
 					};
 					let after = (kr.state(out, sid, &subject), kr.stored(out, sid, &subject, &k.hash()));
 					// no path may take it for something new: the batch / block paths must refuse it,
@@ -1424,14 +1674,14 @@ fn run_known(out: &mut Out, rng: &mut Rng, thorough: bool) {
 				out.raw(&format!("# known {} unmodified {}", cat, cfg));
 				kr.stats.hit(&format!("resend_{}", cfg));
 				let class = match cfg {
-					"alone" => kr.sync(out, sid, &subject, false, &[k.clone()]),
+					"alone" => kr.sync(out, sid, &subject, Options::NONE, &[k.clone()]),
 					"after-known" if parent.height > 0 => {
-						kr.sync(out, sid, &subject, false, &[parent.clone(), k.clone()])
+						kr.sync(out, sid, &subject, Options::NONE, &[parent.clone(), k.clone()])
 					}
-					"after-known" => kr.sync(out, sid, &subject, false, &[k.clone()]),
-					"twice" => kr.sync(out, sid, &subject, false, &[k.clone(), k.clone()]),
-					"pbh" => kr.pbh(out, sid, &subject, false, k),
-					_ => kr.pb(out, sid, &subject, false, k, &blocks[k.height as usize]),
+					"after-known" => kr.sync(out, sid, &subject, Options::NONE, &[k.clone()]),
+					"twice" => kr.sync(out, sid, &subject, Options::NONE, &[k.clone(), k.clone()]),
+					"pbh" => kr.pbh(out, sid, &subject, Options::NONE, k),
+					_ => kr.pb(out, sid, &subject, Options::NONE, k, &blocks[k.height as usize]),
 				};
 				let after = (kr.state(out, sid, &subject), kr.stored(out, sid, &subject, &k.hash()));
 				if before != after {
@@ -1443,17 +1693,49 @@ fn run_known(out: &mut Out, rng: &mut Rng, thorough: bool) {
 			}
 		}
 		// (f) a following honest block is still accepted and becomes the head
-		let class = kr.pb(out, sid, &subject, false, &x, &b);
+		let class = kr.pb(out, sid, &subject, main_opts, &x, &b);
 		kr.state(out, sid, &subject);
 		let hd = subject.head().unwrap();
 		if class != "ok" || hd.last_block_h != x.hash() {
-			kr.fail(out, format!("honest block at height {} not accepted after the sweep: {} head height {}", x.height, class, hd.height));
+			kr.fail(out, format!("honest block at height {} not accepted after the sweep (Options::{}): {} head height {}", x.height, main_oname, class, hd.height));
+		}
+		// properly mined equal-work siblings of the new head (another timestamp, fresh PoW; the
+		// body is valid for them too): accepted with every option through every path
+		{
+			let mut k = 0i64;
+			for (o, oname) in opt_sets.iter().take(3) {
+				for via in ["pbh", "sync", "pb"] {
+					k += 1;
+					let mut hsib = x.clone();
+					let t1 = x.timestamp.timestamp() + 100 + k;
+					set_ts(&mut hsib, t1);
+					if !remine(&mut hsib) {
+						continue;
+					}
+					kr.roots.insert(hsib.prev_hash.to_vec(), hsib.prev_root);
+					out.raw(&format!("# pow mined-sibling {} {}", oname, via));
+					kr.stats.hit(&format!("pow_mined_{}_{}", oname, via));
+					let class = match via {
+						"pbh" => kr.pbh(out, sid, &subject, *o, &hsib),
+						"sync" => kr.sync(out, sid, &subject, *o, &[hsib.clone()]),
+						_ => kr.pb2(out, sid, &subject, *o, &hsib, &b, true),
+					};
+					kr.state(out, sid, &subject);
+					kr.stored(out, sid, &subject, &hsib.hash());
+					let hd = subject.head().unwrap();
+					if !class.starts_with("ok") || subject.get_block_header(&hsib.hash()).is_err()
+						|| hd.last_block_h != x.hash()
+					{
+						kr.fail(out, format!("properly mined header/block refused (or head moved) under Options::{} via {}: {} {}", oname, via, class, show_stored(&hsib)));
+					}
+				}
+			}
 		}
 		kr.tips.push(grin_chain::Tip::from_header(&x));
 		// the honest sibling as a full block: a fork block with equal work, the head stays
 		if let Some(ab) = &alt_block {
 			if rng.chance(1, 2) {
-				let class = kr.pb(out, sid, &subject, false, &ab.header, ab);
+				let class = kr.pb(out, sid, &subject, Options::NONE, &ab.header, ab);
 				kr.state(out, sid, &subject);
 				kr.stats.hit("fork_block");
 				let hd = subject.head().unwrap();
@@ -1469,9 +1751,15 @@ fn run_known(out: &mut Out, rng: &mut Rng, thorough: bool) {
 			let pc_ = open_chain(&format!("{}/{}", work, pid), &genesis).chain;
 			out.line(&format!("cons node {} new {}", pid, kr.fhdr(&genesis.header)), "ok");
 			for blk in blocks.iter().skip(1) {
-				kr.pb(out, &pid, &pc_, false, &blk.header, blk);
+				kr.pb(out, &pid, &pc_, Options::NONE, &blk.header, blk);
 			}
 			kr.state(out, &pid, &pc_);
+			if let Some(fk) = &last_fake {
+				out.raw("# skip_pow fake-nonces SKIP_POW|MINE pbh");
+				let c = kr.pbh(out, &pid, &pc_, Options::SKIP_POW | Options::MINE, fk);
+				kr.stored(out, &pid, &pc_, &fk.hash());
+				kr.stats.hit(&format!("skip_pow_fake_nonces_{}", c));
+			}
 			let t = blocks.len() - 1;
 			let k = blocks[t].header.clone();
 			let hh_td = pc_.header_head().unwrap().total_difficulty.to_num();
@@ -1479,7 +1767,7 @@ fn run_known(out: &mut Out, rng: &mut Rng, thorough: bool) {
 			let mut m = k.clone();
 			m.pow.total_difficulty = Difficulty::from_num(hh_td + rng.range(1, 1 << 30));
 			out.raw("# skip_pow known head td>header_head alone");
-			let class = kr.sync(out, &pid, &pc_, true, &[m.clone()]);
+			let class = kr.sync(out, &pid, &pc_, Options::SKIP_POW, &[m.clone()]);
 			kr.state(out, &pid, &pc_);
 			kr.stored(out, &pid, &pc_, &m.hash());
 			let after = pc_.header_head().unwrap();
@@ -1500,14 +1788,14 @@ fn run_known(out: &mut Out, rng: &mut Rng, thorough: bool) {
 				let t1 = m.timestamp.timestamp() + 1;
 				set_ts(&mut m, t1);
 				out.raw("# skip_pow known mid ts+1 alone");
-				kr.sync(out, &pid, &pc_, true, &[m.clone()]);
+				kr.sync(out, &pid, &pc_, Options::SKIP_POW, &[m.clone()]);
 				kr.state(out, &pid, &pc_);
 				kr.stored(out, &pid, &pc_, &m.hash());
 			}
 			// and through the other two paths
 			let mut m2 = k.clone();
 			m2.pow.total_difficulty = Difficulty::from_num(after.total_difficulty.to_num() + 5);
-			kr.pbh(out, &pid, &pc_, true, &m2);
+			kr.pbh(out, &pid, &pc_, Options::SKIP_POW, &m2);
 			kr.state(out, &pid, &pc_);
 			kr.stored(out, &pid, &pc_, &m2.hash());
 		}
@@ -1532,7 +1820,7 @@ fn run_known(out: &mut Out, rng: &mut Rng, thorough: bool) {
 			let before = (kr.state(out, sid, &subject), kr.stored(out, sid, &subject, &k.hash()));
 			out.raw(&format!("# known head {} after-two-new", kind));
 			kr.stats.hit("cfg_after-two-new");
-			let class = kr.sync(out, sid, &subject, false, &[th[0].clone(), th[1].clone(), m.clone()]);
+			let class = kr.sync(out, sid, &subject, Options::NONE, &[th[0].clone(), th[1].clone(), m.clone()]);
 			let after = (kr.state(out, sid, &subject), kr.stored(out, sid, &subject, &k.hash()));
 			if class.starts_with("ok") || class == "panic" || before != after {
 				kr.fail(out, format!("mutated copy of a known header after two new honest headers ({}): {} known={} mutated={} before={:?} after={:?}", kind, class, show_stored(&k), show_stored(m), before, after));
@@ -1550,28 +1838,28 @@ fn run_known(out: &mut Out, rng: &mut Rng, thorough: bool) {
 			}
 		};
 		out.raw("# tail: two new headers");
-		let c = kr.sync(out, sid, &subject, false, &[th[0].clone(), th[1].clone()]);
+		let c = kr.sync(out, sid, &subject, Options::NONE, &[th[0].clone(), th[1].clone()]);
 		kr.state(out, sid, &subject);
 		expect_head(&mut kr, out, "batch of two new headers", &th[1], &c);
 		out.raw("# tail: known + new");
-		let c = kr.sync(out, sid, &subject, false, &[th[1].clone(), th[2].clone()]);
+		let c = kr.sync(out, sid, &subject, Options::NONE, &[th[1].clone(), th[2].clone()]);
 		kr.state(out, sid, &subject);
 		expect_head(&mut kr, out, "batch known+new", &th[2], &c);
 		out.raw("# tail: three known");
-		let c = kr.sync(out, sid, &subject, false, &[th[0].clone(), th[1].clone(), th[2].clone()]);
+		let c = kr.sync(out, sid, &subject, Options::NONE, &[th[0].clone(), th[1].clone(), th[2].clone()]);
 		kr.state(out, sid, &subject);
 		expect_head(&mut kr, out, "batch of three known headers", &th[2], &c);
 		out.raw("# tail: new header, then a known one with less work as the last");
-		let c = kr.sync(out, sid, &subject, false, &[th[3].clone(), th[1].clone()]);
+		let c = kr.sync(out, sid, &subject, Options::NONE, &[th[3].clone(), th[1].clone()]);
 		kr.state(out, sid, &subject);
 		kr.stored(out, sid, &subject, &th[3].hash());
 		expect_head(&mut kr, out, "batch ending in a known header with less work", &th[2], &c);
 		out.raw("# tail: the extension again, now as the last");
-		let c = kr.sync(out, sid, &subject, false, &[th[2].clone(), th[3].clone()]);
+		let c = kr.sync(out, sid, &subject, Options::NONE, &[th[2].clone(), th[3].clone()]);
 		kr.state(out, sid, &subject);
 		expect_head(&mut kr, out, "batch ending in the heaviest header", &th[3], &c);
 		for b in tb.iter() {
-			let class = kr.pb(out, sid, &subject, false, &b.header, b);
+			let class = kr.pb(out, sid, &subject, Options::NONE, &b.header, b);
 			kr.state(out, sid, &subject);
 			if class != "ok" {
 				kr.fail(out, format!("honest block at height {} not accepted in the tail: {}", b.header.height, class));
